@@ -35,6 +35,8 @@ type Gate struct {
 	RequestLostOnly bool            // fault choices are "request lost" only (no "reply lost")
 	lastFaulted     map[string]bool // RequestLostOnly: the operation whose previous call was lost (its next call gets through)
 	ReplyPoint      bool            // a scheduling point between the storage's effect and the caller seeing the reply (the reply is "in transit")
+	CasDelay        time.Duration   // the storage is slow on CasByVersion: this much virtual time passes ...
+	CasDelayReply   bool            // ... before the request is processed (false) or between its effect and the reply (true)
 	HonourCtx       bool            // refuse a call whose context has ended, like a networked storage does (kvs/inmem ignores contexts)
 	Calls           *[]string
 	OnCall          func(g *Gate, op string)
@@ -154,8 +156,25 @@ func (g *Gate) CasByVersion(ctx context.Context, r kvs.Record) (kvs.Record, erro
 		}
 		return kvs.Record{}, ctx.Err()
 	}
+	if g.CasDelay > 0 && !g.CasDelayReply {
+		vsched.Sleep(g.CasDelay)
+		if g.HonourCtx && ctx.Err() != nil {
+			g.log("Cas timed out on the way: %v", ctx.Err())
+			return kvs.Record{}, ctx.Err()
+		}
+	}
 	res, err := g.Inner.CasByVersion(ctx, r)
 	g.log("Cas -> %v", err)
+	if g.CasDelay > 0 && g.CasDelayReply {
+		vsched.Sleep(g.CasDelay)
+		if g.HonourCtx && ctx.Err() != nil {
+			g.log("Cas reply came too late for the caller: %v", ctx.Err())
+			if g.OnResult != nil {
+				g.OnResult(g, "Cas", ctx.Err())
+			}
+			return kvs.Record{}, ctx.Err()
+		}
+	}
 	if g.OnResult != nil {
 		g.OnResult(g, "Cas", err)
 	}
